@@ -174,6 +174,39 @@ def reads(prog, T, f, cls, depth=0, seen=None):
     return out
 
 
+def _snapshot_of_document(prog, M, T, g):
+    """A lazyproperty that materialises a collection (tuple/list/dict/set/comprehension) by iterating document content - the
+    XML tree, or a proxy collection over it - takes a snapshot that later edits of the document do not reach.
+    Returns a description of the iterated source, or None."""
+    fc = FCtx(g, g.cls)
+    for n in walk_own(g.node):
+        if not (isinstance(n, ast.Return) and n.value is not None):
+            continue
+        v = n.value
+        if isinstance(v, ast.Call) and dotted(v.func) in ("tuple", "list", "dict", "set", "sorted", "frozenset") and v.args:
+            v = v.args[0]
+        if not isinstance(v, (ast.ListComp, ast.GeneratorExp, ast.DictComp, ast.SetComp)):
+            continue
+        for gen in v.generators:
+            it = gen.iter
+            t = T.expr(it, fc)
+            for a in t:
+                if a[0] == "lxml" or (a[0] == "inst" and M.is_oxml_class(a[1])):
+                    return "`%s` (XML elements)" % ast.unparse(it)
+                if a[0] == "list":
+                    inner = a[1] if len(a) > 1 else ()
+                    if any(b[0] == "lxml" or (b[0] == "inst" and M.is_oxml_class(b[1])) for b in (inner or ())):
+                        return "`%s` (list of XML elements)" % ast.unparse(it)
+                if a[0] == "inst":
+                    c = a[1]
+                    # proxy collection: a class of the package that holds an element and iterates it
+                    if c.module.name.startswith("pptx.") and not c.module.name.startswith(("pptx.opc.serialized", "pptx.text.fonts")) \
+                            and prog.lookup(c, "__iter__") is not None \
+                            and any(k.name in ("ParentedElementProxy", "ElementProxy", "_BaseShapes", "Subshape") for k in prog.mro(c) if hasattr(k, "name")):
+                        return "`%s` (%s, a live view of the XML)" % (ast.unparse(it), c.name)
+    return None
+
+
 def _r21(ctx, prog, M, T):
     ctx.rule("R2.1", "no lazyproperty memoises a value derived from a field that is reassigned after construction")
     used = mutable_fields(prog, T)
@@ -198,6 +231,11 @@ def _r21(ctx, prog, M, T):
     transient = {}
     for g in sorted(lazies, key=lambda x: x.fq):
         key = g.qualname
+        snap = _snapshot_of_document(prog, M, T, g)
+        if snap is not None:
+            ctx.violation("R2.1", key + ":snapshot", "lazyproperty memoises a collection built by iterating %s: later changes of the "
+                          "document are not reflected (stale members, missing new ones)" % snap, file=g.file, line=g.line)
+            continue
         rs = reads(prog, T, g, g.cls)
         bad = []
         for rc, name in sorted(rs, key=lambda x: (x[0].name, x[1])):
